@@ -15,7 +15,7 @@
    differential on the implementation (same call with and without the trap set) and by the
    reference-interpreter comparison of ErrDecimal programs. *)
 From Coq Require Import ZArith Bool List.
-From Apd Require Import Generated.Consts Model.Base Model.NumDigits Model.Decimal Model.Context Model.ErrDec Proofs.TrapsProofs Model.Roots Model.Exp Proofs.RootsTraps Proofs.ExpTraps.
+From Apd Require Import Generated.Consts Model.Base Model.NumDigits Model.Decimal Model.Context Model.ErrDec Proofs.TrapsProofs Model.Roots Model.Exp Model.Ln Proofs.RootsTraps Proofs.ExpTraps Proofs.LnTraps.
 Open Scope Z_scope.
 
 Theorem C03_error_nil_iff traps r : go_error traps r = ENone <->
@@ -89,6 +89,26 @@ Theorem C03_exp_nil_error_means_untrapped_result est cp n c x r : ctx_exp_with e
   strip (ctx_exp_with est cp n (with_traps c c0) x) = Ok (rdec r, rcond r).
 Proof. exact (exp_untrapped est cp n c x r). Qed.
 Print Assumptions C03_exp_nil_error_means_untrapped_result.
+
+(* Ln on its power-series path (Model/Ln.v; None = Halley's iteration, not modelled), for every content of the
+   constant table: a call that returns no error returns the value and Condition of the untrapped call *)
+Theorem C03_ln_series_nil_error_means_untrapped_result est tab c x r : ctx_ln_series est tab c x = Ok (Some r) -> rerr r = ENone ->
+  exists r', ctx_ln_series est tab (with_traps c c0) x = Ok (Some r') /\ rdec r' = rdec r /\ rcond r' = rcond r.
+Proof. exact (ln_untrapped est tab c x r). Qed.
+Print Assumptions C03_ln_series_nil_error_means_untrapped_result.
+
+(* Log10 (series path of its inner Ln): the logarithm is computed under a private context and multiplied with no
+   traps: value and Condition never depend on the caller's traps *)
+Theorem C03_log10_series est tab tab2 c t x :
+  match ctx_log10_series est tab tab2 (with_traps c t) x, ctx_log10_series est tab tab2 c x with
+  | Ok (Some r'), Ok (Some r) => rdec r' = rdec r /\ rcond r' = rcond r
+  | Ok None, Ok None => True
+  | Panic w', Panic w => w' = w
+  | OutOfFuel, OutOfFuel => True
+  | _, _ => False
+  end.
+Proof. exact (log10_indep est tab tab2 c t x). Qed.
+Print Assumptions C03_log10_series.
 
 (* ErrDecimal over arbitrary method sequences *)
 Theorem C03_errdecimal_sticky est c p s : ed_err s <> ENone -> ed_run est c s p = Ok s.
